@@ -237,7 +237,7 @@ theorem rel_renderNode (c : RCtx) (hP : PrimsRespect t d c.P) (hO : OutRespect t
     rcases cyclesOf_erel hl with rfl | ⟨h1, h2⟩
     · split
       · exact mrel_fail _
-      · exact mrel_bind (mrel_setVar _ (ERel.refl _)) (fun _ _ _ => mrel_bind (mrel_write _) (fun _ _ _ => mrel_pure rfl))
+      · exact mrel_bind (mrel_setVar _ (ERel.refl _)) (fun _ _ _ => mrel_bind (mrel_writeVerbatim _) (fun _ _ _ => mrel_pure rfl))
     · simp only [h1, h2]
       exact mrel_fail _
   | .brk line => by unfold renderNode; exact mrel_pure rfl
@@ -254,7 +254,7 @@ theorem rel_renderNode (c : RCtx) (hP : PrimsRespect t d c.P) (hO : OutRespect t
         subst h
         obtain ⟨st, out⟩ := r
         cases st with
-        | done => exact mrel_bind (mrel_write _) (fun _ _ _ => mrel_pure rfl)
+        | done => exact mrel_bind (mrel_writeVerbatim _) (fun _ _ _ => mrel_pure rfl)
         | brk e => exact mrel_pure rfl
         | cont e => exact mrel_pure rfl
       · exact mrel_fail _
